@@ -35,7 +35,7 @@ const creds = "Proxy-Authorization: Basic dTpw\r\n" // u:p
 
 var kindNames = []string{"ok", "denied-403", "unauthenticated-407", "dial-error", "origin-reset-mid-body", "connect-client-closes-first",
 	"connect-target-closes-first", "upgrade", "mitm-inner-request", "rejected-upstream-connect", "client-abort-uploading", "client-abort-downloading",
-	"head", "post", "connect-client-aborts-while-dialling", "upgrade-client-aborts-before-101", "client-abort-before-response", "overlapping-same-request-id", "ok-via-connect-to", "upgrade-connection-close"}
+	"head", "post", "connect-client-aborts-while-dialling", "upgrade-client-aborts-before-101", "client-abort-before-response", "overlapping-same-request-id", "ok-via-connect-to", "upgrade-connection-close", "connect-terminate-tls-fails"}
 
 type ledger struct {
 	totals map[string]int // "code,method" -> count; code "*" = any code
@@ -186,6 +186,27 @@ func (s *st) exchange(kind string, c *world.Peer) *world.Peer {
 		c.Close()
 		t.Close()
 		s.count(200, "CONNECT")
+		return nil
+	case "connect-terminate-tls-fails":
+		// CONNECT asking the proxy to terminate TLS towards the target itself (X-Martian-Terminate-Tls: true); the
+		// target is reached but does not speak TLS: the CONNECT fails AFTER a connection was dialled
+		h := s.hop("tunnel.test:443", nil)
+		c.Send([]byte("CONNECT tunnel.test:443 HTTP/1.1\r\nHost: tunnel.test:443\r\nX-Martian-Terminate-Tls: true\r\n" + creds + "\r\n"))
+		h.Poll()
+		if len(h.Raw) == 0 {
+			x.Failf("harness/exchange", "%s: the target was not dialled; client got %q", kind, world.Clip(c.Recv()))
+			return nil
+		}
+		t := h.Raw[len(h.Raw)-1]
+		t.Send([]byte("HTTP/1.1 400 Bad Request\r\nConnection: close\r\n\r\n"))
+		t.Close()
+		world.Settle(5 * time.Second)
+		rs := httpwire.ParseResponses(c.Recv(), methods("CONNECT"), false)
+		if len(rs.Msgs) == 0 || rs.Msgs[len(rs.Msgs)-1].Status < 500 {
+			x.Failf("harness/exchange", "%s: client got %q, want a 5xx", kind, world.Clip(c.Recv()))
+			return nil
+		}
+		s.count(rs.Msgs[len(rs.Msgs)-1].Status, "CONNECT")
 		return nil
 	case "upgrade", "upgrade-connection-close":
 		h := s.hop("ws.test:80", nil)
